@@ -111,6 +111,9 @@ class GeminiServerProtocol(asyncio.Protocol):
         self.url_line_received = False
         self.awaiting_titan_content = False
 
+        # Gemini/Titan: exactly one response per connection
+        self.response_sent = False
+
     def connection_made(self, transport: asyncio.BaseTransport) -> None:
         """Called when a client connects.
 
@@ -266,8 +269,9 @@ class GeminiServerProtocol(asyncio.Protocol):
         Args:
             response: The response to send.
         """
-        if not self.transport:
+        if not self.transport or self.response_sent:
             return
+        self.response_sent = True
 
         # Calculate request duration
         duration_ms = 0.0
@@ -579,6 +583,9 @@ class GeminiServerProtocol(asyncio.Protocol):
 
     def _process_titan_upload(self) -> None:
         """Process the Titan upload through the upload handler."""
+        # The request is complete: later reads must not dispatch it again
+        self.awaiting_titan_content = False
+
         if not self.upload_handler or not self.titan_request:
             self._send_error_response(
                 StatusCode.TEMPORARY_FAILURE, "Upload handler error"
